@@ -121,6 +121,17 @@ func cmdCheck(argv []string) int {
 			results = append(results, &OblResult{Func: o.Func, Name: o.Name, Kind: o.Kind, Tags: o.Tags, Src: o.Src, Where: o.Where, Expect: o.Expect, Bytes: len(q), query: q})
 		}
 	}
+	// vacuity guard for the trusted axioms: the prelude as a whole must not be refutable
+	{
+		all := map[string]bool{}
+		for n := range eng.prelude.Funs {
+			all[n] = true
+		}
+		txt, _ := eng.prelude.Render(all)
+		q := "(set-logic ALL)\n" + txt + "(check-sat)\n"
+		results = append(results, &OblResult{Func: "prelude", Name: "cover:axioms-consistent", Kind: "cover", Expect: "sat",
+			Src: "the prelude axioms taken together are not refutable", Bytes: len(q), query: q})
+	}
 	genT := time.Since(t1)
 	if *dump != "" {
 		os.MkdirAll(*dump, 0o755)
